@@ -519,9 +519,19 @@ func (o vC09Obs) short() string {
 }
 
 // restart: a new process on the same directory
-func (h *vC09H) newResolver(cfg []vC09Sym, tr int) {
+func (h *vC09H) newResolver(cfg []vC09Sym, tr int, sr bool) {
 	tp := h.tpath()
 	pt, ptok := vC09ReadOpt(tp)
+	sp := h.spath()
+	ps, psok := vC09ReadOpt(sp)
+	if sr {
+		_ = os.RemoveAll(sp)
+		if h.rng.Intn(2) == 0 {
+			_ = os.WriteFile(sp, []byte("not a gob stream"), 0o600)
+		} else {
+			_ = os.Symlink(stateFile, sp)
+		}
+	}
 	switch tr {
 	case 1:
 		_ = os.RemoveAll(tp)
@@ -554,6 +564,9 @@ func (h *vC09H) newResolver(cfg []vC09Sym, tr int) {
 	if tr != 0 {
 		vC09Restore(tp, pt, ptok)
 	}
+	if sr {
+		vC09Restore(sp, ps, psok)
+	}
 	h.cfg = append([]vC09Sym(nil), cfg...)
 	h.cur = h.observe()
 	// restart-window observation: what is live right after NewResolver against the revocations on record
@@ -563,38 +576,34 @@ func (h *vC09H) newResolver(cfg []vC09Sym, tr int) {
 			markers[e.k.mat] = true
 		}
 	}
-	if (h.cur.hasT && len(h.cur.tomb) > 0) || len(markers) > 0 || tr != 0 {
-		viol, markerOnly := false, true
+	if (h.cur.hasT && len(h.cur.tomb) > 0) || len(markers) > 0 || tr != 0 || sr {
+		viol := false
 		for _, k := range h.cur.live {
-			if _, ok := h.cur.tomb[k.mat]; ok {
-				viol, markerOnly = true, false
-			} else if markers[k.mat] {
+			if _, ok := h.cur.tomb[k.mat]; ok || markers[k.mat] {
 				viol = true
 			}
 		}
-		if tr != 0 && len(h.cur.live) > 0 {
-			viol, markerOnly = true, false
+		if (tr != 0 || sr) && len(h.cur.live) > 0 {
+			viol = true
 		}
 		rec := map[string]any{
 			"k":          "window-clean",
-			"coq":        fmt.Sprintf("CWindow %s %s %s %d %s", h.tbl(), vC09KeysCoq(cfg), h.cur.coq(), tr, vC09KeysCoq(h.cur.live)),
+			"coq":        fmt.Sprintf("CWindow %s %s %s %d %s %s", h.tbl(), vC09KeysCoq(cfg), h.cur.coq(), tr, vC09B(sr), vC09KeysCoq(h.cur.live)),
 			"nontrivial": true,
-			"desc":       map[string]any{"index": h.idx, "what": "rootKeys right after NewResolver vs revocations on record", "config": vC09KeysCoq(cfg), "tombstone_read": tr, "observed": h.cur.short()},
+			"desc":       map[string]any{"index": h.idx, "what": "rootKeys right after NewResolver vs revocations on record", "config": vC09KeysCoq(cfg), "tombstone_read": tr, "state_read_fails": sr, "observed": h.cur.short()},
 		}
 		cls := "ok"
-		if tr != 0 {
+		if tr != 0 || sr {
 			rec["k"] = "window-store-unreadable"
 			cls = "fault"
+		}
+		if len(markers) > 0 {
+			rec["k"] = "window-marker"
+			cls = "marker"
 		}
 		if viol {
 			rec["k"] = "window-revoked-configured"
 			cls = "bad"
-			if markerOnly {
-				// the revocation is on record only as a StateRevoked marker in trust-anchor.db
-				rec["k"] = "window-marker-only"
-				rec["fkey"] = "restart-window-trusts-key-revoked-only-by-state-marker"
-				cls = "marker"
-			}
 		}
 		b, _ := json.Marshal(rec)
 		if !h.windowSeen[cls] {
@@ -605,20 +614,22 @@ func (h *vC09H) newResolver(cfg []vC09Sym, tr int) {
 }
 
 func (h *vC09H) start(cfg []vC09Sym) {
-	h.newResolver(cfg, 0)
+	h.newResolver(cfg, 0, false)
 	h.initCfg = append([]vC09Sym(nil), cfg...)
 	h.init = h.cur.coq()
 	h.desc = append(h.desc, fmt.Sprintf("start cfg=%s -> %s", vC09KeysCoq(cfg), h.cur.short()))
 }
 
 func (h *vC09H) restart(cfg []vC09Sym) {
-	tr := 0
-	if x := h.rng.Intn(14); x < 2 {
+	tr, sr := 0, false
+	if x := h.rng.Intn(15); x < 2 {
 		tr = x + 1 // the tombstone file is corrupt / cannot be opened while the process starts
+	} else if x == 2 {
+		sr = true // the state file cannot be read while the process starts
 	}
-	h.newResolver(cfg, tr)
-	h.steps = append(h.steps, fmt.Sprintf("ORestart %s %d %s", vC09KeysCoq(cfg), tr, h.cur.coq()))
-	h.desc = append(h.desc, fmt.Sprintf("restart cfg=%s tombstone_read=%d -> %s", vC09KeysCoq(cfg), tr, h.cur.short()))
+	h.newResolver(cfg, tr, sr)
+	h.steps = append(h.steps, fmt.Sprintf("ORestart %s %d %s %s", vC09KeysCoq(cfg), tr, vC09B(sr), h.cur.coq()))
+	h.desc = append(h.desc, fmt.Sprintf("restart cfg=%s tombstone_read=%d state_read_fails=%v -> %s", vC09KeysCoq(cfg), tr, sr, h.cur.short()))
 }
 
 // advance the clock: every stored instant moves into the past
@@ -874,7 +885,7 @@ func (h *vC09H) rollback(k int, cfg []vC09Sym) {
 	}
 	vC09Restore(h.spath(), s, sok)
 	vC09Restore(h.tpath(), t, tok)
-	h.newResolver(cfg, 0)
+	h.newResolver(cfg, 0, false)
 	h.steps = append(h.steps, fmt.Sprintf("ORollback %d %s %s", k, vC09KeysCoq(cfg), h.cur.coq()))
 	h.desc = append(h.desc, fmt.Sprintf("crash after %d of %v replacements, restart cfg=%s -> %s", k, h.renames, vC09KeysCoq(cfg), h.cur.short()))
 }
